@@ -167,6 +167,15 @@ def rule_OUT(ctx, tier):
         else:
             rr.ok("%s: Watcher entered only after the 503 gate" % m)
     c = P.require("teos::api::internal::InternalAPI::check_service_unavailable")
+    # the gate lets a request through only when it READ the flag and found it true ("could not look" is not "reachable")
+    gate_oks = [bb for bb in c.rpo() for s_ in c.blocks[bb]["s"] if s_["k"] == "assign" and s_["d"] == [0] and s_["rv"]["k"] == "agg" and s_["rv"].get("variant") == "Ok"]
+
+    def flag_true(bb):
+        return any(f[0] == "truth" and f[2] is True and "f:bitcoind_reachable" in og.show(f[1]) and not has_call(f[1], "is_ok") and not has_call(f[1], "is_err") for f in facts_at(ctx, c, bb))
+    if gate_oks and all(flag_true(bb) for bb in gate_oks):
+        rr.ok("503 gate: Ok only on a path that read the reachability flag as true", sample={"rule": "OUT", "gate": "Ok <= *bitcoind_reachable.lock() == true"})
+    else:
+        rr.fail("gate-open-without-reading", "`check_service_unavailable` can answer Ok on a path that did not find the reachability flag true (e.g. a failed try_lock treated as reachable): requests are taken on during a noticed outage", where=c.span)
     errs = [bb for bb in c.rpo() for s in c.blocks[bb]["s"] if s["k"] == "assign" and s["d"] == [0] and s["rv"]["k"] == "agg" and s["rv"].get("variant") == "Err"]
     codes = [arg_origin(ctx, c, x, 0) for x in sites(c, "tonic::Status::new")]
     if errs and codes and all(k[0] == "agg" and k[2] == "Unavailable" for k in codes):
